@@ -158,6 +158,7 @@ func checkCmd(args []string) int {
 			cfg.Preempt = r.Preempt
 		}
 		cfg.MaxPaths = r.MaxPaths
+		cfg.Owned = spec.Prefixes
 		if r.Fallback != "" {
 			cfg.Fallback = r.Fallback
 		}
